@@ -5,6 +5,7 @@
 -/
 import RenetVerif.Generated.Src.Packet
 import RenetVerif.Lemmas.SrcEquiv.Prims
+import RenetVerif.Lemmas.SrcEquiv.CommonRepr
 namespace RenetVerif.SrcEquiv
 open RenetVerif RenetVerif.RustSem
 
@@ -254,15 +255,6 @@ theorem step_bytes {ρ β} {b : OctetsMut} (v : List Nat) (xs : List Nat)
 
 theorem W_start {ρ β} {b : OctetsMut} (hb : OInv b) (f : OctetsMut → Exec SSerErr ρ β) : f b = (W b []).bind f := by
   rw [W_nil hb]; rfl
-
-def reprSlice (s : Slice) : Src.renet.packet.Slice := ⟨s.messageId, s.sliceIndex, s.numSlices, toNats s.payload⟩
-def reprRange (r : AckRange) : RustSem.Range := ⟨r.1, r.2⟩
-def reprPacket : RenetVerif.Packet → Src.renet.packet.Packet
-  | .smallReliable s c m => .SmallReliable s c (m.map fun x => (x.1, toNats x.2))
-  | .smallUnreliable s c m => .SmallUnreliable s c (m.map toNats)
-  | .reliableSlice s c sl => .ReliableSlice s c (reprSlice sl)
-  | .unreliableSlice s c sl => .UnreliableSlice s c (reprSlice sl)
-  | .ack s r => .Ack s (r.map reprRange)
 
 theorem cast64_of_le_max {v : Nat} (h : v ≤ Varint.MAX) : RustSem.cast 64 v = v :=
   cast_of_lt (Nat.lt_of_le_of_lt h (by decide))
